@@ -93,7 +93,7 @@ def make_pool(rng, dl):
         base += [body ^ (top // 256 if dl >= 3 else 256), body ^ 256]                 # last-but-one / second byte
     if dl > 8:
         base += [body ^ 2 ** 64, body ^ 2 ** (8 * (dl - 1)), (body % 2 ** 64) + 2 ** 64, (body % 2 ** 64) + 2 ** 65]
-    base += [v, v + 2 ** 31, v + 2 ** 32, v + 2 ** 63, 2 ** 64 - 1, 2 ** 64 - 2, 2 ** 63, 2 ** 32, 2 ** 31]
+    base += [v, v + 2 ** 31, v + 2 ** 32, v + 2 ** 63, 2 ** 64 - 1, 2 ** 64 - 2, 2 ** 64 - 1000, 2 ** 63, 2 ** 32, 2 ** 31]
     # records whose sort keys (v % 10) TIE while their bytes differ — in the first byte, in the last
     # byte and in between (matters for odd element sizes too: 1, 3, 17)
     t = rng.randrange(0, 6)
@@ -343,8 +343,11 @@ def mixed_zip_program(h, o1, o2, rng):
     pos, removed = 0, False
     for _ in range(rng.randint(2, min(len(s1.xs), len(s2.xs)) + 6)):
         if rng.random() < 0.2:
-            t = rng.choice([o1, o2]); st = h.sh[t]; suf = h.suffix(t)
-            d = rng.choice(["add", "remove_last", "remove_at0", "remove_all", "trim"])
+            # mostly the SECOND array is shortened while the first stays long: the second add_at of a zit_add
+            # is then rejected and the first insertion has to be rolled back
+            t = o2 if rng.random() < 0.65 else o1
+            st = h.sh[t]; suf = h.suffix(t)
+            d = rng.choice(["add", "remove_last", "remove_last", "remove_at0", "remove_all", "trim"])
             if d == "add":
                 v = h.val(); h.ops.append(f"add {v}{suf}"); st.xs.append(st.norm(v))
             elif d == "remove_last":
@@ -373,7 +376,9 @@ def mixed_zip_program(h, o1, o2, rng):
                     del s1.xs[pos - 1]
                 pos -= 1; removed = True
         elif r < 0.75:
-            v1, v2 = h.val(), h.val(); h.ops.append(f"zit_add {v1} {v2}")
+            # values already stored in the first array (a duplicate at a LOWER index exposes a roll-back by value)
+            v1 = rng.choice(s1.xs[:max(pos, 1)]) if s1.xs and rng.random() < 0.6 else h.val()
+            v2 = h.val(); h.ops.append(f"zit_add {v1} {v2}")
             if pos <= n1 and pos <= n2:
                 s1.xs.insert(pos, s1.norm(v1))
                 s2.xs.insert(pos, s2.norm(v2))
@@ -610,14 +615,7 @@ class ArraySizedGen:
                             out.append([f"new esize=2 cap={cap} exp={ex}"] + [f"add {i + 1}" for i in range(n)] +
                                        ["zit_new o=0 o2=0"] + ["zit_next"] * steps + [f"zit_add 8 9 fail={k}", "zit_index", "zit_add 6 7",
                                         "zit_next", "zit_remove", "add 5", "foreach_zip o=0 o2=0", "capacity", "destroy"])
-        # the cursor left behind by direct calls: shortened, emptied, extended array; every iterator call
-        for direct in (["remove_last"], ["remove_all"], ["remove_at 0", "remove_at 0"], ["add 9", "trim_capacity"], ["remove_all", "add 7"]):
-            for call in ("it_next", "it_remove", "it_add 4", "it_replace 4", "it_index"):
-                out.append(["new esize=3 cap=2 exp=1.5", "add 1", "add 2", "add 3", "it_new", "it_next", "it_next", "it_next"] + direct +
-                           [call, "it_index", "it_next", "it_add 5", "it_remove", "foreach", "destroy"])
-            for call in ("zit_next", "zit_remove", "zit_add 4 5", "zit_replace 4 5", "zit_index"):
-                out.append(["new esize=3 cap=2 exp=1.5", "new o=1 esize=1 cap=4 exp=2", "add 1", "add 2", "add 3", "add 11 o=1", "add 12 o=1", "add 13 o=1",
-                            "zit_new o=0 o2=1", "zit_next", "zit_next", "zit_next"] + direct + [call, "zit_index", "zit_next", "zit_add 6 7", "foreach_zip o=0 o2=1", "destroy"])
+        out += self._small_stale()
         # refusals on an aliased zit_add: in the growth pre-check and inside the second add_at (A11)
         for cap, n, ex in ((1, 1, "2"), (2, 1, "2"), (2, 2, "1.5"), (3, 2, "2"), (3, 3, "1.1")):
             for k in (1, 2):
@@ -640,6 +638,31 @@ class ArraySizedGen:
         ops1, _ = reuse_ops(2, 2, "2", False, [1, 2, 3, 4, 5, 6])
         ops2, _ = reuse_ops(2, 2, "2", True, [7, 8, 9, 10, 11, 12])
         out.append(ops1 + ["drop o=0"] + ops2 + ["destroy"])
+        return out
+
+    def _small_stale(self):
+        """rejected iterator calls: cursors left behind by direct calls, zit_add rejected on the second array"""
+        out = []
+        # the cursor left behind by direct calls: shortened, emptied, extended array; every iterator call
+        for direct in (["remove_last"], ["remove_all"], ["remove_at 0", "remove_at 0"], ["add 9", "trim_capacity"], ["remove_all", "add 7"]):
+            for call in ("it_next", "it_remove", "it_add 4", "it_replace 4", "it_index"):
+                out.append(["new esize=3 cap=2 exp=1.5", "add 1", "add 2", "add 3", "it_new", "it_next", "it_next", "it_next"] + direct +
+                           [call, "it_index", "it_next", "it_add 5", "it_remove", "foreach", "destroy"])
+            for call in ("zit_next", "zit_remove", "zit_add 4 5", "zit_replace 4 5", "zit_index"):
+                out.append(["new esize=3 cap=2 exp=1.5", "new o=1 esize=1 cap=4 exp=2", "add 1", "add 2", "add 3", "add 11 o=1", "add 12 o=1", "add 13 o=1",
+                            "zit_new o=0 o2=1", "zit_next", "zit_next", "zit_next"] + direct + [call, "zit_index", "zit_next", "zit_add 6 7", "foreach_zip o=0 o2=1", "destroy"])
+        # zit_add rejected on the SECOND array (shortened behind the iterator) while the first array already
+        # holds an equal record at a lower index: the roll-back must take out the record just inserted (by
+        # index), not the first equal one
+        for dl in (1, 3):
+            for steps in (2, 3, 4):
+                for dup_at in range(0, steps):
+                    for shorten in (["remove_last o=1", "remove_last o=1", "remove_last o=1"], ["remove_all o=1"], ["remove_at 0 o=1", "remove_last o=1", "trim_capacity o=1"]):
+                        first = [10, 20, 30, 40]
+                        first[dup_at] = 77
+                        out.append([f"new esize={dl} cap=2 exp=2", f"new o=1 esize={dl} cap=4 exp=1.5"] + [f"add {v}" for v in first] +
+                                   [f"add {v} o=1" for v in (1, 2, 3, 4)] + ["zit_new o=0 o2=1"] + ["zit_next"] * steps + shorten +
+                                   ["zit_add 77 9", "zit_index", "index_of 77", "zit_next", "zit_add 77 9", "foreach", "destroy"])
         return out
 
     def _small_derived(self, quick):
@@ -720,6 +743,7 @@ class ArraySizedGen:
 
     def _small_reject(self, quick, extreme=True):
         out = []
+        out += self._small_stale()
         B0 = [0, 1, 2, 3, 2**31, 2**63, SIZE_MAX - 1, SIZE_MAX]
         for dl in (1, 2, 3, 8, 17):
             for n in range(0, 3):
@@ -949,7 +973,7 @@ class ArraySizedGen:
         p_der = {"derived": 0.15, "all": 0.05, "fault": 0.15}.get(focus, 0)
         p_sort = {"sort": 0.2, "all": 0.04}.get(focus, 0)
         p_fail = {"all": 0.05}.get(focus, 0)
-        p_mixed = {"iter": 0.08, "all": 0.03, "fault": 0.03}.get(focus, 0)
+        p_mixed = {"iter": 0.08, "all": 0.03, "fault": 0.03, "reject": 0.06}.get(focus, 0)
         p_zsame = {"iter": 0.04, "growth": 0.02, "all": 0.02, "fault": 0.04}.get(focus, 0)
         allow_it_add = True
         i = 0
@@ -967,7 +991,13 @@ class ArraySizedGen:
                     zip_same_program(h, o, rng, p_fail=4 * p_fail)
                 continue
             if rng.random() < p_mixed:
-                if 1 in h.sh and rng.random() < 0.3:
+                if 1 not in h.sh and rng.random() < 0.5:
+                    dl2 = rng.choice(ESIZES)
+                    h.ops.append(f"new o=1 esize={dl2} cap={rng.choice([1, 2, 4])} exp={rng.choice(FACTORS)}")
+                    h.sh[1] = Shadow(dl2)
+                    for _ in range(rng.randint(1, 6)):
+                        v = h.val(); h.ops.append(f"add {v} o=1"); h.sh[1].xs.append(h.sh[1].norm(v))
+                if 1 in h.sh and rng.random() < 0.6:
                     mixed_zip_program(h, 0, 1, rng)
                 else:
                     mixed_iter_program(h, o, rng)
